@@ -50,6 +50,12 @@ type Conn struct {
 	werr     error  // injected write error
 	wwait    chan struct{}
 
+	// remote-side blocking reader of wlog (RemoteRead) and one-shot torn write
+	lwait   chan struct{}
+	tearAt  int // > 0: the Write that would carry wlog past this offset stops there ...
+	tearErr error
+	tornAt  int // offset at which a write was torn (-1: none yet)
+
 	closed   bool
 	nReads   int
 	nWrites  int
@@ -63,7 +69,60 @@ type Conn struct {
 func New(local, remote *net.TCPAddr, wcap int) *Conn {
 	return &Conn{
 		local: local, remote: remote, wcap: wcap,
-		rwait: make(chan struct{}), wwait: make(chan struct{}),
+		rwait: make(chan struct{}), wwait: make(chan struct{}), lwait: make(chan struct{}),
+		tornAt: -1,
+	}
+}
+
+func (c *Conn) wakeRemoteLocked() {
+	close(c.lwait)
+	c.lwait = make(chan struct{})
+}
+
+// TearWriteAt arms a one-shot torn write: the Write call that would carry the
+// number of bytes ever written past off accepts bytes up to off only and
+// returns (accepted, err).  Later writes are accepted again - the connection
+// is alive, the stream is not continuable.
+func (c *Conn) TearWriteAt(off int, err error) {
+	c.mu.Lock()
+	c.tearAt, c.tearErr = off, err
+	c.mu.Unlock()
+}
+
+// TornAt returns the offset at which a write was torn, or -1.
+func (c *Conn) TornAt() int {
+	c.mu.Lock()
+	defer c.mu.Unlock()
+	return c.tornAt
+}
+
+// RemoteRead is the remote end's blocking read of what the local side wrote:
+// it returns available unconsumed bytes (consuming them), blocks while there
+// are none, and returns io.EOF once the local side has closed.
+func (c *Conn) RemoteRead(p []byte) (int, error) {
+	if len(p) == 0 {
+		return 0, nil
+	}
+	for {
+		c.mu.Lock()
+		if avail := len(c.wlog) - c.consumed; avail > 0 {
+			n := len(p)
+			if n > avail {
+				n = avail
+			}
+			copy(p, c.wlog[c.consumed:c.consumed+n])
+			c.consumed += n
+			c.wakeWritersLocked()
+			c.mu.Unlock()
+			return n, nil
+		}
+		if c.closed {
+			c.mu.Unlock()
+			return 0, io.EOF
+		}
+		ch := c.lwait
+		c.mu.Unlock()
+		<-ch
 	}
 }
 
@@ -170,9 +229,25 @@ func (c *Conn) Write(p []byte) (int, error) {
 				room = free
 			}
 		}
+		torn := false
+		if c.tearAt > 0 && len(c.wlog)+room > c.tearAt {
+			room = c.tearAt - len(c.wlog)
+			if room < 0 {
+				room = 0
+			}
+			torn = true
+		}
 		if room > 0 {
 			c.wlog = append(c.wlog, p[done:done+room]...)
 			done += room
+			c.wakeRemoteLocked()
+		}
+		if torn {
+			err := c.tearErr
+			c.tornAt = len(c.wlog)
+			c.tearAt, c.tearErr = 0, nil
+			c.mu.Unlock()
+			return done, err
 		}
 		if done == len(p) {
 			c.nWrites++
@@ -210,6 +285,7 @@ func (c *Conn) Close() error {
 	c.closed = true
 	c.wakeReadersLocked()
 	c.wakeWritersLocked()
+	c.wakeRemoteLocked()
 	c.mu.Unlock()
 	return nil
 }
